@@ -337,4 +337,25 @@ def cloneOnto (root : V) (sp dp : List Step) : Option V :=
     | none => none
     | some s => update root' dp s
 
+/-- the repair proposed for F32 (notes/agents/gG-fixes.diff): `cif_value_clone` onto an existing object first builds
+    the copy in a scratch object, then cleans the target and moves the copy in; cloning an object onto itself does
+    nothing.  The source is therefore read before anything is released, wherever it lies relative to the target. -/
+def cloneOntoRepaired (root : V) (sp dp : List Step) : Option V :=
+  if sp = dp then (match resolve root dp with | some _ => some root | none => none)
+  else
+    match resolve root sp with
+    | none => none
+    | some s => update root dp s
+
+/-- the repair proposed for F33: `cif_packet_create` refuses two names for one item (CIF_DUP_ITEMNAME = 41) -/
+def packetCreateRepaired (norm : Str → Option Str) : List Str → Except Code Packet
+  | [] => .ok []
+  | n :: ns =>
+    match norm n with
+    | none => .error INVALID_ITEMNAME
+    | some nk =>
+      match packetCreateRepaired norm ns with
+      | .error c => .error c
+      | .ok p => if (mapFind p nk).isSome then .error 41 else .ok ((nk, n, .unk) :: p)
+
 end CifModel.Model.Value
